@@ -63,6 +63,7 @@ type Op struct {
 	Write      bool
 	Universal  bool
 	Objs       []ObjKey
+	DynRoot    *Ptr // vAtomic kind 3: objects = root + all channels reachable from it
 	Pos        token.Pos
 }
 
@@ -304,6 +305,9 @@ func (e *Engine) transOf(st *State, g *G) []Trans {
 		return []Trans{base}
 	case opVAtomic:
 		base.Objs = op.Objs
+		if op.DynRoot != nil {
+			base.Objs = e.dynObjs(st, *op.DynRoot)
+		}
 		base.Write = op.Write
 		base.Univ = op.Universal
 		return []Trans{base}
